@@ -1,0 +1,61 @@
+//go:build verif
+
+// Contracts checked by /verif/govc (comment-only file; adds no code).
+
+package registry
+
+
+// ---- C19: listing keeps only signature manifests of exactly this artifact; caps before content is used ----
+
+//@ pure func isSigOf(t content.ReadOnlyGraphStorage, p ocispec.Descriptor, desc ocispec.Descriptor) bool = p.Size <= 4*1024*1024 && ((p.MediaType == artifactspec.MediaTypeArtifactManifest && artErr(fetchedOf(t, p)) == nil && !artSubjectNil(fetchedOf(t, p)) && sameDesc3(artSubject(fetchedOf(t, p)), desc) && artType(fetchedOf(t, p)) == ArtifactTypeNotation) || (p.MediaType == ocispec.MediaTypeImageManifest && imgErr(fetchedOf(t, p)) == nil && !imgSubjectNil(fetchedOf(t, p)) && sameDesc3(imgSubject(fetchedOf(t, p)), desc) && imgConfigType(fetchedOf(t, p)) == ArtifactTypeNotation))
+//@ pure func annotationsOf(t content.ReadOnlyGraphStorage, p ocispec.Descriptor) map[string]string = ite(p.MediaType == artifactspec.MediaTypeArtifactManifest, artAnnotations(fetchedOf(t, p)), imgAnnotations(fetchedOf(t, p)))
+
+//@ ghost func filteredReferrers(rs []ocispec.Descriptor, t content.ReadOnlyGraphStorage, d ocispec.Descriptor) bool
+
+//@ func signatureReferrers
+//@ props C19
+//@ requires target != nil
+//@ at call content.FetchAll: assert[C19.manifest-cap] arg2.Size <= 4*1024*1024 && (arg2.MediaType == artifactspec.MediaTypeArtifactManifest || arg2.MediaType == ocispec.MediaTypeImageManifest) && arg1 == target
+//@ ensures[C19.only-own-signatures] result1 == nil ==> forall(r, 0, len(result), exists(p, 0, len(predsOf(target, desc)), sameDesc3(result[r], predsOf(target, desc)[p]) && isSigOf(target, predsOf(target, desc)[p], desc) && result[r].ArtifactType == ArtifactTypeNotation && result[r].Annotations == annotationsOf(target, predsOf(target, desc)[p])))
+//@ ensures result1 != nil ==> result == nil
+//@ ensures-ghost result1 == nil ==> filteredReferrers(result, target, desc)
+//@ loop 1 invariant forall(r, 0, len(results), exists(p, 0, rangeindex+1, sameDesc3(results[r], predecessors[p]) && isSigOf(target, predecessors[p], desc) && results[r].ArtifactType == ArtifactTypeNotation && results[r].Annotations == annotationsOf(target, predecessors[p])))
+//@ loop 1 invariant newsince(results)
+
+//@ func (*repositoryClient).getSignatureBlobDesc
+//@ props C19
+//@ requires c != nil && c.GraphTarget != nil
+//@ at call content.FetchAll: assert[C19.manifest-cap] arg2 == sigManifestDesc && sigManifestDesc.Size <= 4*1024*1024 && (sigManifestDesc.MediaType == artifactspec.MediaTypeArtifactManifest || sigManifestDesc.MediaType == ocispec.MediaTypeImageManifest)
+//@ ensures-local[C19.exactly-one-blob] result1 == nil ==> len(signatureBlobs) == 1 && result == signatureBlobs[0]
+
+//@ func (*repositoryClient).FetchSignatureBlob
+//@ props C19
+//@ requires c != nil && c.GraphTarget != nil
+//@ at call content.FetchAll: assert[C19.blob-cap] arg2 == sigBlobDesc && sigBlobDesc.Size <= 32*1024*1024
+//@ ensures-local[C19.fetch] result2 == nil ==> result1 == sigBlobDesc && result == sigBlob
+//@ ensures result2 != nil ==> result == nil
+
+//@ func (*repositoryClient).PushSignature
+//@ props C19 C11
+//@ requires c != nil && c.GraphTarget != nil
+//@ at call oras.PushBytes: assert[C19.push-blob,C11.push-blob] arg2 == mediaType && arg3 == blob
+//@ at call (*repositoryClient).uploadSignatureManifest: assert[C19.push-manifest,C11.push-manifest] arg1 == subject && arg2 == blobDesc && arg3 == annotations
+
+//@ global invariant notationEmptyConfigDesc.MediaType == ArtifactTypeNotation
+
+//@ func pushNotationManifestConfig
+//@ props C19
+//@ requires pusher != nil
+//@ ensures[C19.config] result1 == nil ==> result == notationEmptyConfigDesc
+
+//@ func (*repositoryClient).uploadSignatureManifest
+//@ props C19 C11
+//@ requires c != nil && c.GraphTarget != nil
+//@ at call oras.PackManifest: assert[C19.pack,C11.pack] arg2 == oras.PackManifestVersion1_1 && arg3 == "" && arg4.Subject != nil && *arg4.Subject == subject && arg4.ManifestAnnotations == annotations && len(arg4.Layers) == 1 && arg4.Layers[0] == blobDesc && arg4.ConfigDescriptor != nil && *arg4.ConfigDescriptor == notationEmptyConfigDesc
+
+//@ func (*repositoryClient).ListSignatures
+//@ props C19
+//@ requires c != nil && c.GraphTarget != nil && fn != nil
+//@ modifies any
+//@ at call signatureReferrers: assert[C19.list-args] arg1 == c.GraphTarget && arg2 == desc
+//@ at call dynamic: assert[C19.list-filtered] filteredReferrers(arg0, c.GraphTarget, desc)
